@@ -803,7 +803,11 @@ class Surface:
             rsq = r * r
             z = conic_sag(params['c'], params['k'], rsq)
             dr = conic_sag_der(params['c'], params['k'], r)
-            dx, dy = surface_normal_from_cylindrical_derivatives(dr, 0, r, t)
+            # rotationally symmetric, there is no azimuthal derivative;
+            # surface_normal_from_cylindrical_derivatives would evaluate it as
+            # 1/r * 0 = NaN for a ray along the axis (r=0)
+            dx = dr * np.cos(t)
+            dy = dr * np.sin(t)
             return z, dx, dy
 
         return cls(typ=typ, P=P, n=n, FFp=FFp, R=R, params=params, bounding=bounding)
